@@ -264,6 +264,44 @@ func TestVerifC06(t *testing.T) {
 			judgeResponder(fmt.Sprintf("wrong-target-resp/%d", round), r2, ok2, map[string]bool{pubRaw(A.GetPublic()): true}, "wrong target")
 		}
 
+		// ---- relay to an unintended responder (identity misbinding) ------------------------------------------
+		// A wants to reach E. A keyless man in the middle connects A's stream to the honest responder B instead, forwards
+		// everything, swallows B's accept (A could not open it anyway) and injects the plain acknowledge towards B.
+		// B must not end up reporting A as the requester of a contact request that was addressed to somebody else.
+		{
+			x, y := newDuplex()   // A <-> relay
+			x2, y2 := newDuplex() // relay <-> B
+			rq, rs := c06RunRequester(x, A, E.GetPublic()), c06RunResponder(y2, B)
+			ack, _ := proto.Marshal(&RequesterAcknowledgePayload{Success: true})
+			go c06Relay(y, x2, func(dir, idx int, frame []byte) [][]byte {
+				if dir == 1 && idx == 1 { // B's accept
+					_, _ = x2.Write(frameBytes(ack))
+					return nil
+				}
+				return [][]byte{frame}
+			})
+			r2, ok2 := c06Wait(rs)
+			x.Close()
+			y.Close()
+			r1, ok1 := c06Wait(rq)
+			id := fmt.Sprintf("relay-unintended-responder/%d", round)
+			judgeRequester(id+"/req", r1, ok1, false, "A targets E, a relay hands its frames to B")
+			rep.Case(id + "/resp")
+			switch {
+			case !ok2:
+				rep.Inconclusivef("%s: responder still running after 30 s", id)
+			case r2.pnc != nil:
+				rep.Violate("C06/panic/responder", fmt.Sprintf("%v", r2.pnc), id)
+			case r2.err == nil:
+				rep.Violate("C06/misbinding/relay", "the responder completed a handshake (and reports the requester's key) although the requester's proof was made for a request addressed to another account: the target is not bound into the session",
+					map[string]interface{}{"reported_is_requester": r2.key != nil && r2.key.Equals(A.GetPublic())})
+			default:
+				rep.Count("responder_refused", 1)
+			}
+			x2.Close()
+			y2.Close()
+		}
+
 		// ---- low-order ephemeral keys, alone and with cross-session replay --------------------------------
 		for name, pt := range lowOrderEncodings() {
 			pt := pt
